@@ -18,13 +18,16 @@ from hypothesis import strategies as st
 K_HONEST = 1e5        # fixed multiple of the reported estimate (95 % bound with a heavy tail)
 KAPPA = 1e3           # rounding floor, multiples of eps * local scale at the reported final step
 # (b) calibration of the estimate, pooled over the library-chosen step configurations with at
-# least two estimates and n <= 6.  Unchanged tree (2 500-case samples): coverage 0.965-0.985,
-# median 0.06-0.17, q90 0.5-0.7.  (multicomplex is not pooled: with several steps of ~1e-15 its
-# errors are rounding noise and coverage varied between 0.90 and 0.99 from sample to sample.)
+# least two estimates and n <= 6 of the real-step methods.  Unchanged tree, 20 quick-tier seeds
+# (174..576 pooled cases per method): coverage 0.874..1.0, median 0.014..0.203, q90 0.39..1.73.
+# The thresholds are deliberately loose (the pooled cases are correlated: arrays of points share
+# one program): this clause is a tripwire for gross mis-calibration of the estimate, e.g. a
+# dropped |result - e_2| term in dea3, not a precise statistic.  (multicomplex is not pooled: with
+# several steps of ~1e-15 its errors are rounding noise, coverage varied between 0.90 and 0.99.)
 POOLED = ('central', 'forward', 'backward')
-COVERAGE_MIN = 0.80
-Q50_MAX = 0.4
-Q90_MAX = 2.0
+COVERAGE_MIN = 0.70
+Q50_MAX = 0.5
+Q90_MAX = 5.0
 POOL_MIN = 150
 
 
